@@ -958,10 +958,6 @@ func opReferenceChangeJournal(ctx context.Context, pc *uint64, interpreter *EVMI
 		return ret[:]
 	}
 
-	u64Ceiling := func(nom, denom uint64) uint64 {
-		return (nom + denom - 1) / denom
-	}
-
 	keccak := func(interpreter *EVMInterpreter, data []byte) []byte {
 		if interpreter.hasher == nil {
 			interpreter.hasher = crypto.NewKeccakState()
@@ -993,11 +989,13 @@ func opReferenceChangeJournal(ctx context.Context, pc *uint64, interpreter *EVMI
 	} else {
 		slotBytes := storageSlot.Bytes32()
 		referenceSlot := new(uint256.Int).SetBytes(keccak(interpreter, slotBytes[:]))
-		for i := uint64(0); i < u64Ceiling(length, 32); i++ {
-			offset := referenceSlot.Add(referenceSlot, one).Bytes32()
-			currentRawState := interpreter.evm.StateDB.GetState(contract, offset)
+		// the data words live at keccak(slot), keccak(slot)+1, ...; the last one is padded
+		for uint64(len(stateBytes)) < length {
+			currentRawState := interpreter.evm.StateDB.GetState(contract, referenceSlot.Bytes32())
 			stateBytes = append(stateBytes, currentRawState[:]...)
+			referenceSlot.Add(referenceSlot, one)
 		}
+		stateBytes = stateBytes[:length]
 	}
 
 	err = interpreter.tracer.SaveStateChange(contract, &storageSlot, nil, typeId.Bytes32(), stateBytes)
